@@ -26,7 +26,8 @@ type expect struct {
 	chain1 []string // after
 	rev0   int64
 	rev1   int64
-	wr     [2]int // sector range (off,n) of the write under test; n=0: the operation is not a write
+	wr     [2]int     // sector range (off,n) of the write under test; n=0: the operation is not a write
+	lastRC *recovered // what the last check() saw after reopening
 }
 
 type verdict struct {
@@ -124,6 +125,7 @@ func (e *expect) check(dir, mode string, st *ostats) *verdict {
 	if err != nil {
 		return &verdict{"reopen-failed", fmt.Sprintf("the replica directory cannot be reopened: %v", err)}
 	}
+	e.lastRC = rc
 	v := e.judge(dir, rc, mode, st)
 	if v != nil && mode == "old" {
 		if e.judge(dir, rc, "new", &ostats{}) == nil {
